@@ -33,10 +33,12 @@ CHECKS = {
             'Trusted: the hand composition in pbt/props/c10.py; library primitives are checked by C03-C08, C12.',
             'DESIGN.md section 4, C10'),
     'C11': ('fault_enumeration',
-            'enumeration of documented row-fault kinds over tables of 1-2 rows (samples: 25 kinds incl. 7 healthy ones, '
+            'enumeration of documented row-fault kinds over tables of 1-2 rows (samples: 30 kinds incl. 11 healthy ones, four of them over unusual files: a listed channel missing, '
+            'FCS3.1, ISO-8859-1 text, no voltages; '
             'beads: 9 kinds) + Hypothesis for 3-5 rows; oracle: row-level error for each faulty row, healthy row == its '
             'single-row run (sample and output-table row), order, exact error notes, histogram skips',
-            'Every 1-row table, every ordered pair of kinds that contains a healthy row or repeats a kind, and a third '
+            'Every 1-row table, every ordered pair of kinds that contains a healthy row or repeats a kind (the four '
+            'unusual-file kinds are paired with the healthy kinds only in the quick tier), and a third '
             '(quick) or all (thorough) of the ordered pairs of two different faulty kinds, all 91 bead tables of <=2 '
             'rows, plus sampled tables of 3..5 rows, must return (no abort), record an ExcelUIException for exactly the '
             'faulty rows, give every healthy cell-sample row the public fingerprint and the output-table row of its '
